@@ -136,6 +136,7 @@ class Interp:
         self.exit_subst = {}  # loop id -> {iv atom: Lin}
         self.ptr_class = {}  # mem atom -> 'TABLE' | 'DATA'
         self.iv_init = {}
+        self.iv_step = {}
         self.ptr_args = set()
 
     # ------------------------------------------------------------------------------------------
@@ -323,7 +324,8 @@ class Interp:
             if a in sub:
                 r = sub[a]
             else:
-                r = atom(self.map_atom(a, lambda l: self.subst_atoms(l, sub), lambda c: self.subst_cond(c, sub)))
+                m = self.map_atom(a, lambda l: self.subst_atoms(l, sub), lambda c: self.subst_cond(c, sub))
+                r = m[1] if m[0] == "wrap" else atom(m)
             cache[a] = r
             return r
 
@@ -351,6 +353,12 @@ class Interp:
         k = a[0]
         if k in ("arg", "fresh", "alloca", "unk", "iv", "global", "fconst"):
             return a
+        if k == "prod":
+            r = const(1)
+            for fac in a[1:]:
+                r = mk_mul(r, fl(atom(fac)))
+            s_ = r.single_atom()
+            return s_ if s_ is not None else ("wrap", r)
         if k == "gamma":
             g = mk_gamma(fc(a[1]), fl(a[2]), fl(a[3]))
             s = g.single_atom()
@@ -506,20 +514,65 @@ class Interp:
             return r1[1] != r2[1] and r1[1] != ("?",) and r2[1] != ("?",) and r1[1][0] in ("OBJ", "LOCAL", "FRESH") and r2[1][0] in ("OBJ", "LOCAL", "FRESH")
         return True
 
+    def _nonneg_form(self, t, depth=0):
+        """c + Σ k·atom with c, k >= 0 (every atom denotes an unsigned quantity) is non-negative.
+        Bounds used one atom at a time to cancel mixed signs:  z <= AlignUp(z, A) <= z + A - 1 ;
+        an induction variable with positive step is >= its initial value (<= for negative step)."""
+        if t.c >= 0 and all(k >= 0 and a[0] != "unk" for a, k in t.t):
+            return True
+        if depth > 4:
+            return False
+        for a, k in t.t:
+            if a[0] == "alignup":
+                bound = a[1] if k > 0 else a[1] + (a[2] - 1)
+            elif a[0] == "iv" and a in self.iv_init and self.iv_step.get(a, 0) != 0:
+                st = self.iv_step[a]
+                if (k > 0 and st > 0) or (k < 0 and st < 0):
+                    bound = self.iv_init[a]
+                else:
+                    continue
+            else:
+                continue
+            t2 = t - atom(a).scale(k) + bound.scale(k)
+            if self._nonneg_form(t2, depth + 1):
+                return True
+        return False
+
     def may_overlap(self, a1, s1, a2, s2, r1=None, r2=None):
-        d = (a1 - a2).const()
+        dl = a1 - a2
+        d = dl.const()
         if d is not None:
             return -s1 < d < s2
+        # [a1, a1+s1) entirely behind or in front of [a2, a2+s2) by sign of the symbolic distance
+        if self._nonneg_form(dl - s2) or self._nonneg_form(-dl - s1):
+            return False
         if r1 is None:
             r1 = self.region_of(a1)
         if r2 is None:
             r2 = self.region_of(a2)
         return not self.regions_disjoint(r1, r2)
 
-    def load(self, mem, addr, size, ty, inst=None):
+    def load(self, mem, addr, size, ty, inst=None, depth=0):
         key = (addr, size)
         if key in mem.w:
             return mem.w[key]
+        # address is γ(c, p, q) + off with both branches pointers: load each side
+        if depth < 3:
+            for a, k in addr.t:
+                if k == 1 and a[0] == "gamma" and not self.pointer_like(a):
+                    r1, _ = self.root_of(a[2])
+                    r2, _ = self.root_of(a[3])
+                    if r1 is not None and r2 is not None:
+                        rest = addr - atom(a)
+                        v1 = self.load(mem, a[2] + rest, size, ty, inst, depth + 1)
+                        v2 = self.load(mem, a[3] + rest, size, ty, inst, depth + 1)
+                        return mk_gamma(a[1], v1, v2)
+        # sub-range of a wider constant store (e.g. a zeroing memset split into 8-byte entries)
+        for (a2, s2), v in mem.w.items():
+            d = (addr - a2).const()
+            if d is not None and 0 <= d and d + size <= s2 and isinstance(v, Lin) and v.is_const():
+                val = (v.c & ((1 << (8 * s2)) - 1)) >> (8 * d)
+                return const(val & ((1 << (8 * size)) - 1))
         reg = self.region_of(addr)
         if reg in mem.havoc:
             return self.unk("load from havoced region %s" % (reg,))
@@ -562,7 +615,8 @@ class Interp:
             if r == "skip":
                 continue
             return self.unk("load %s in loop %d reads a location written in an earlier iteration or undecided (%s)" % (show(addr), lid, r))
-        for (dst, n, rg, tag) in mem.bulk:
+        for bi in range(len(mem.bulk) - 1, -1, -1):
+            (dst, n, rg, tag) = mem.bulk[bi][:4]
             if self.regions_disjoint(reg, rg):
                 continue
             d = (addr - dst).const()
@@ -571,6 +625,21 @@ class Interp:
                 continue
             if d is not None and d + size <= 0:
                 continue
+            if d is None and self._nonneg_form(dst - addr - size):
+                continue
+            if len(mem.bulk[bi]) > 4 and mem.bulk[bi][4] is not None and depth < 3:
+                # memcpy/memmove: bytes [dst, dst+n) are the source bytes at copy time
+                src, snap = mem.bulk[bi][4]
+                dd = addr - dst
+                inr = c_and(c_cmp("sle", ZERO, dd), c_cmp("sle", dd + size, n))
+                inside = self.load(snap, src + dd, size, ty, inst, depth + 1)
+                if inr == TRUE:
+                    return inside
+                m2 = Mem(mem.w, mem.segs, mem.bulk[:bi], mem.havoc, mem.lsegs)
+                under = self.load(m2, addr, size, ty, inst, depth + 1) if inr != FALSE else None
+                if inr == FALSE:
+                    continue
+                return mk_gamma(inr, inside, under)
             return self.unk("load %s after bulk write %s" % (show(addr), tag))
         a = ("mem", addr, size)
         if ty is not None and ty.kind == "ptr":
@@ -700,8 +769,18 @@ class Interp:
                 mem.w[(a2, s2)] = self.unk("clobbered by store to %s" % show(addr))
         mem.w[(addr, size)] = value
 
-    def bulk_write(self, mem, dst, n, tag):
+    def bulk_write(self, mem, dst, n, tag, copy_from=None, fill=None):
         reg = self.region_of(dst)
+        nn0 = n.const() if isinstance(n, Lin) else None
+        if fill is not None and nn0 is not None and 0 < nn0 <= 512 and fill.is_const():
+            # memset with constant length/value: explicit entries (8-byte chunks, then bytes)
+            b = fill.c & 0xFF
+            off = 0
+            while off < nn0:
+                w = 8 if nn0 - off >= 8 else 1
+                self.store(mem, dst + off, w, const(int.from_bytes(bytes([b]) * w, "little")))
+                off += w
+            return
         for (a2, s2) in list(mem.w.keys()):
             r2 = self.region_of(a2)
             if self.regions_disjoint(reg, r2):
@@ -710,8 +789,13 @@ class Interp:
             nn = n.const() if isinstance(n, Lin) else None
             if d is not None and (d + s2 <= 0 or (nn is not None and d >= nn)):
                 continue
+            if d is None and self._nonneg_form(dst - a2 - s2):
+                continue  # the entry lies in front of the written range
             mem.w[(a2, s2)] = self.unk("clobbered by bulk write %s" % tag)
-        mem.bulk = mem.bulk + ((dst, n, reg, tag),)
+        snap = None
+        if copy_from is not None:
+            snap = (copy_from, mem.copy())
+        mem.bulk = mem.bulk + ((dst, n, reg, tag, snap),)
 
     def join_mem(self, b, preds):
         """γ-join of predecessor exit memories along edges into b"""
@@ -1135,11 +1219,11 @@ class Interp:
                 kind = "MEMCPY" if "memcpy" in name else "MEMMOVE"
                 dst, src, n = args[0], args[1], args[2]
                 self.emit(kind, (dst, src, n), None, ins)
-                self.bulk_write(mem, dst, n, "%s#%d" % (kind, len(self.events)))
+                self.bulk_write(mem, dst, n, "%s#%d" % (kind, len(self.events)), copy_from=src)
                 return None
             if name.startswith("llvm.memset"):
                 self.emit("MEMSET", (args[0], args[1], args[2]), None, ins)
-                self.bulk_write(mem, args[0], args[2], "MEMSET#%d" % len(self.events))
+                self.bulk_write(mem, args[0], args[2], "MEMSET#%d" % len(self.events), fill=args[1])
                 return None
             for k in ("umax", "umin", "smax", "smin"):
                 if name.startswith("llvm." + k):
@@ -1177,7 +1261,7 @@ class Interp:
             e = self.emit("MEMCMP", tuple(args), res, ins, name=name)
         elif kind in ("MEMCPY", "MEMMOVE"):
             e = self.emit(kind, tuple(args[:3]), None, ins)
-            self.bulk_write(mem, args[0], args[2], "%s#%d" % (kind, len(self.events)))
+            self.bulk_write(mem, args[0], args[2], "%s#%d" % (kind, len(self.events)), copy_from=args[1])
             res = args[0]
         else:
             # value-type event or generic opaque call
@@ -1245,9 +1329,13 @@ class Interp:
             for ins in phis:
                 if ins.res in variant_phis:
                     self.header_phi_atoms[ins.res] = atom(("iv", "%s.%s" % (self.fn.name, ins.res), "variant"))
+                elif steps.get(ins.res) == 0:
+                    self.header_phi_atoms[ins.res] = init[ins.res]
                 else:
                     self.header_phi_atoms[ins.res] = atom(iv_atom[ins.res])
             li.ivs = {iv_atom[r]: (init[r], st) for r, st in steps.items()}
+            for r, st in steps.items():
+                self.iv_step[iv_atom[r]] = st
             li.variant = set(("iv", "%s.%s" % (self.fn.name, r), "variant") for r in variant_phis)
             memh = mem0.copy()
             self.loop_entry_mem = memh
@@ -1277,6 +1365,12 @@ class Interp:
                     continue
                 d = None
                 ok = True
+                if steps.get(ins.res) == 0:
+                    if all(t == init[ins.res] for t in vals):
+                        new_steps[ins.res] = 0
+                    else:
+                        new_variant.add(ins.res)
+                    continue
                 for t in vals:
                     dd = (t - atom(iv_atom[ins.res])).const()
                     if dd is None or (d is not None and dd != d):
@@ -1287,7 +1381,13 @@ class Interp:
                 elif ok and d == 0:
                     new_steps[ins.res] = 0
                 else:
-                    new_variant.add(ins.res)
+                    # φ(init, f(φ)) with f(init) == init on every latch edge: the value never changes
+                    me = iv_atom[ins.res]
+                    if vals and all(self.subst_atoms(t, {me: init[ins.res]}) == init[ins.res] for t in vals) \
+                            and not self.depends_on_loop_atoms(init[ins.res], iv_atom.values()):
+                        new_steps[ins.res] = 0
+                    else:
+                        new_variant.add(ins.res)
             new_stores = self.collect_loop_stores(li, ev_mark)
             if new_steps == steps and new_variant == variant_phis and self.same_stores(new_stores, stores_in_loop):
                 break
@@ -1312,6 +1412,17 @@ class Interp:
         for (b, s, c) in exits:
             self.finish_loop_memory(li, b)
         self.header_phi_atoms = {}
+
+    def depends_on_loop_atoms(self, t, atoms):
+        atoms = set(atoms)
+        found = []
+
+        def fn(a):
+            if a in atoms:
+                found.append(a)
+
+        walk_atoms(t, fn)
+        return bool(found)
 
     def same_stores(self, a, b):
         if a is None or b is None:
@@ -1354,6 +1465,8 @@ class Interp:
                 d = (a2 - addr).const()
                 if d is not None and size is not None and not (-s2 < d < size):
                     continue
+                if d is None and self._nonneg_form(addr - a2 - s2):
+                    continue  # the entry lies in front of everything the loop writes
                 mem.w[(a2, s2)] = self.unk("may be modified in loop %d" % li.id)
         # loads of not-yet-seen locations in a stored region: handled through bulk marker
         for (addr, size, value, e) in stores:
@@ -1363,7 +1476,7 @@ class Interp:
             if size is not None:
                 mem.lsegs = mem.lsegs + ((addr, size, li.id, e),)
             else:
-                mem.bulk = mem.bulk + ((addr, self.unk("loop extent"), r, "loop%d" % li.id),)
+                mem.bulk = mem.bulk + ((addr, self.unk("loop extent"), r, "loop%d" % li.id, None),)
 
     def depends_on_loop(self, t, li):
         found = []
@@ -1521,8 +1634,18 @@ class Interp:
         for (addr, size, value, e) in (li.stores or []):
             if size is None:
                 r = self.region_of(addr)
-                a2 = self.subst_atoms(addr, sub)
-                new.bulk = new.bulk + ((a2, self.unk("loop extent"), r, "loop%d-bulk" % li.id),)
+                # lowest address written over all iterations (positive steps: the initial value)
+                lowsub = {}
+                ok = True
+                for a, (ini, st) in li.ivs.items():
+                    if st > 0:
+                        lowsub[a] = ini
+                    elif st < 0:
+                        ok = False
+                a2 = self.subst_atoms(addr, lowsub) if ok else self.unk("loop address")
+                if self.depends_on_loop(a2, li):
+                    a2 = self.unk("loop address")
+                new.bulk = new.bulk + ((a2, self.unk("loop extent"), r, "loop%d-bulk" % li.id, None),)
         new.segs = tuple(segs)
         self.out_mem[exit_block] = new
 
